@@ -153,11 +153,19 @@ def main():
                 outcome = "returned a gateway"
             elif variant == "via_dup":
                 group.makegateway("popen//via=%s//id=%s" % (before[0], before[0]))
+            elif variant == "chdir_is_file":
+                group.makegateway("popen//chdir=%s" % os.path.abspath(sys.argv[1]))
+            elif variant == "nice_not_a_number":
+                group.makegateway("popen//nice=abc")
+            elif variant == "chdir_missing_parent":
+                group.makegateway("popen//python=%s//chdir=/nonexistent-verif-dir/sub/dir" % sys.executable)
         except BaseException as e:  # noqa
             outcome = type(e).__name__ + ": " + str(e)[:200]
         emit(event="attempt_end", outcome=outcome, before=before, after=[gw.id for gw in group])
         time.sleep(case.get("linger", 2.0))
         group.terminate(1.0)
+        emit(event="post_terminate", len_group=len(group))
+        time.sleep(1.5)
         os._exit(0)
     else:
         raise ValueError(action)
